@@ -17,6 +17,7 @@ import re
 from sa import ir, cfg, logic, facts, regexlang
 from sa.ir import fmt, walk, short
 from sa.logic import Not
+from sa.callgraph import tree_effects, lvalue_root
 from .common import callgraph, elem_calls
 from . import C04
 
@@ -92,7 +93,9 @@ def run(ctx):
         loops = cfg.loop_blocks(f)
         ctx.check(len(loops) == 1, "R08.3", f, "one-argument-loop", "formatter::str has %d loops" % len(loops), f)
         body = loops[0][1] if loops else set()
-        at_end = [a for b in IN for g in IN[b] for a in logic.atoms_of(g) if "placeholder" in a and "==" in a and "end" in a]
+        # `match iterator == past-the-end iterator`: an equality atom over two locals of regex_iterator type
+        rit = {v["name"] for _, _, e in f.roots() if e["expr"].get("k") == "decl" for v in e["expr"]["vars"] if "regex_iterator" in (v.get("type") or "")}
+        at_end = [a for b in IN for g in IN[b] for a in logic.atoms_of(g) if "==" in a and sum(1 for nm in rit if re.search(r"\b%s\b" % re.escape(nm), a)) >= 2]
         atom = ("a", at_end[0]) if at_end else None
         rb = [b for b in IN if f.is_noreturn(b)]
         more = less = 0
@@ -110,30 +113,8 @@ def run(ctx):
             if x.get("k") == "return" and bid in IN and atom:
                 ok = logic.entails(before[(bid, i)], atom, fe.lg.axioms)[0] is True
                 ctx.check(ok, "R08.3", f, "result-only-when-arity-matches", "`return result` is reachable while placeholders remain", (f, e.get("ln")))
-        # ---- R08.4 loop shape
-        appends = []
-        for bid, i, e in f.roots():
-            for n in walk(e["expr"], into_sc=False):
-                if n.get("k") == "call" and short(n.get("name") or "") in ("append", "operator+=", "insert", "push_back") and fmt(n.get("this")) == "result":
-                    appends.append((bid, i, e, [fmt(ir.unwrap(a)) for a in n.get("args", [])]))
-        inloop = [a for a in appends if a[0] in body]
-        after = [a for a in appends if a[0] not in body]
-        pos = r"placeholder\.operator->\(\)->position\(0\)"
-        ok_slice = len(inloop) == 2 and re.fullmatch(r"input, \(format_\.begin\(\) \+ %s\)" % pos, ", ".join(inloop[0][3])) is not None
-        ok_arg = len(inloop) == 2 and inloop[1][3] == ["it.begin()", "it.end()"] or (len(inloop) == 2 and inloop[1][3] == ["(*it)"])
-        ctx.check(ok_slice, "R08.4", f, "appends-format-up-to-match", "inside the loop the result receives %s first (expected the format slice [input, match position))" % (inloop[0][3] if inloop else None), f)
-        ctx.check(bool(ok_arg), "R08.4", f, "appends-argument-text-verbatim", "inside the loop the result receives %s as the argument text" % (inloop[1][3] if len(inloop) > 1 else None), f)
-        resume = None
-        for bid, i, e in f.roots():
-            x = e["expr"]
-            if x.get("k") == "bin" and x["op"] == "=" and fmt(x["l"]) == "input" and bid in body:
-                resume = fmt(ir.unwrap(x["r"]))
-        ok_res = resume is not None and re.fullmatch(r"\(\(format_\.begin\(\) \+ %s\) \+ placeholder\.operator->\(\)->length\(0\)\)" % pos, resume) is not None
-        ctx.check(ok_res, "R08.4", f, "resumes-after-the-placeholder", "the scan resumes at %s instead of match position + match length" % resume, f)
-        ctx.check(len(after) == 1 and after[0][3] == ["input", "format_.end()"], "R08.4", f, "appends-format-tail", "after the loop the result receives %s" % [a[3] for a in after], f)
-        # placeholder and argument advance together
-        adv = [fmt(e["expr"]) for b in body for e in f.elems(b) if e.get("expr") is not None and "++" in fmt(e["expr"])]
-        ctx.check(any("(++it)" in a and "(++placeholder)" in a for a in adv) or (any("(++it)" in a for a in adv) and any("(++placeholder)" in a for a in adv)), "R08.4", f, "advances-argument-and-placeholder", "loop increments: %s" % adv, f)
+        # ---- R08.4 loop shape: symbolic execution of the code before the loop, of one generic iteration, and of the code after it
+        _loop_equation(ctx, f, loops)
     # ---- R08.4 operator% / args
     pct = [f for f in prog.fns.values() if f.has_cfg and f.is_pattern and f.cls == FMT and f.op == "%"]
     ctx.need("R08.4", "formatter::operator% (pattern)", len(pct), 1)
@@ -154,11 +135,41 @@ def run(ctx):
     argsf = [f for f in prog.fns.values() if f.has_cfg and f.is_pattern and f.cls == FMT and f.name == "args" and f.params]
     ctx.need("R08.4", "formatter::args(a, rest...) (pattern)", len(argsf), 1)
     for f in argsf:
-        body = [fmt(e["expr"]) for _, _, e in f.roots()]
         a = f.params[0]["name"]
         rest = f.params[1]["name"] if len(f.params) > 1 else "args"
-        ok = len(body) == 3 and body[0] in ("((*this) %% forward(%s))" % a, "operator%%(forward(%s))" % a) and re.fullmatch(r"(this->)?args\(forward\(%s\)\.\.\.\)" % rest, body[1]) and body[2] == "return (*this)"
-        ctx.check(bool(ok), "R08.4", f, "args-applies-percent-in-order", "args(a, rest...) is %s instead of `(*this) %% a; args(rest...)`: arguments are not rendered one by one, in order, each through operator%%" % body, f)
+        # evaluation order of the effects: operator%(*this, a) first, then args(rest...) on *this (or on what % returned)
+        seq = []
+
+        def order(n):
+            if not isinstance(n, dict):
+                return
+            for ch in ir.children(n, into_sc=False):
+                order(ch)
+            if n.get("k") == "call" and (n.get("name") or "") not in ("std::forward", "std::move"):
+                seq.append(n)
+            elif n.get("k") == "bin" and n.get("op") == "%":
+                seq.append(n)  # dependent form of operator%
+        for _, _, e in f.roots():
+            order(e["expr"])
+
+        def on_self(x):
+            x = ir.unwrap(x)
+            return isinstance(x, dict) and (fmt(x) in ("(*this)", "this") or x.get("k") == "this" or (x.get("k") in ("call", "bin") and any(x is y for y in seq)))
+        shape = []
+        for n in seq:
+            bo = ir.as_binop(n)
+            if bo and bo[0] == "%" and on_self(bo[1]) and fmt(ir.unwrap(bo[2])) in ("forward(%s)" % a, a, "move(%s)" % a):
+                shape.append("%")
+            elif short(n.get("name") or "") == "args" and [fmt(ir.unwrap(x)) for x in n.get("args", [])] == ["forward(%s)..." % rest] and (n.get("this") is None or on_self(n.get("this"))):
+                shape.append("args")
+            elif short(n.get("name") or "") == "operator%" and n.get("this") is not None and on_self(n["this"]) and [fmt(ir.unwrap(x)) for x in n.get("args", [])] in (["forward(%s)" % a], [a]):
+                shape.append("%")
+            else:
+                shape.append("other:" + fmt(n)[:60])
+        ok = shape == ["%", "args"]
+        ctx.check(ok, "R08.4", f, "args-applies-percent-in-order", "args(a, rest...) performs %s instead of `(*this) %% a` followed by `args(rest...)`: arguments are not rendered one by one, in order, each through operator%%" % shape, f)
+        rets = [fmt(ir.unwrap(e["expr"].get("e"))) for _, _, e in f.roots() if e["expr"].get("k") == "return" and e["expr"].get("e") is not None]
+        ctx.check(all(r == "(*this)" or ".args(" in r or r.startswith("args(") or r.startswith("this->args(") or "% " in r for r in rets) and rets, "R08.4", f, "args-returns-self", "args(a, rest...) returns %s" % rets, f)
     # ---- R08.5
     me = [f for f in prog.fns.values() if f.has_cfg and f.is_pattern and (f.cls or "").startswith("nitro::except::detail::make_exception") and f.op == "()"]
     ctx.need("R08.5", "make_exception::operator() patterns", len(me), 2)
@@ -174,7 +185,9 @@ def run(ctx):
     ms = [f for f in prog.fns.values() if f.has_cfg and f.is_pattern and f.qual == "nitro::except::detail::make_string"]
     for f in ms:
         body = [fmt(e["expr"]) for _, _, e in f.roots()]
-        ok = len(body) == 3 and body[2] == "return msg.str()" and "forward(args)..." in body[1]
+        sv = [v["name"] for _, _, e in f.roots() if e["expr"].get("k") == "decl" for v in e["expr"]["vars"] if "stringstream" in (v.get("type") or "")]
+        pa = f.params[0]["name"] if f.params else "args"
+        ok = len(body) == 3 and len(sv) == 1 and body[2] == "return %s.str()" % sv[0] and "(%s, forward(%s)...)" % (sv[0], pa) in body[1]
         ctx.check(ok, "R08.5", f, "make_string-returns-stream-text", "make_string is %s" % body, f)
     ex = [f for f in prog.fns.values() if f.has_cfg and f.is_pattern and f.cls == "nitro::except::exception" and f.kind == "ctor"]
     ctx.need("R08.5", "except::exception constructor (pattern)", len(ex), 1)
@@ -182,3 +195,98 @@ def run(ctx):
         inits = [fmt(ir.unwrap(e["expr"])) for _, _, e in f.all_elems() if e["kind"] == "init"]
         ctx.check(any("make_string(forward(args)...)" in s0 for s0 in inits), "R08.5", f, "message-is-make_string", "exception is initialised with %s" % inits, f)
     ctx.assume("the output equation for all format strings (nested / lone braces) depends on std::regex_iterator's match semantics: not decided")
+
+
+def _loop_equation(ctx, f, loops):
+    from sa import strsym
+    from sa.strsym import show, show_lin
+    if len(loops) != 1:
+        return
+    head, body = loops[0]
+    ret = None
+    for _, _, e in f.roots():
+        x = e["expr"]
+        if x.get("k") == "return" and x.get("e") is not None:
+            r = ir.unwrap(x["e"])
+            while isinstance(r, dict) and r.get("k") == "construct" and len(r.get("args", [])) == 1:
+                r = ir.unwrap(r["args"][0])
+            if isinstance(r, dict) and r.get("k") == "call" and (r.get("name") or "") == "std::move" and r.get("args"):
+                r = ir.unwrap(r["args"][0])
+            if isinstance(r, dict) and r.get("k") == "ref" and r.get("decl", "").startswith("local:"):
+                ret = r["decl"][6:]
+    if ret is None:
+        ctx.broken("R08.4", f, "result-variable", "formatter::str does not return a local string", f)
+        return
+    ss = strsym.StrSym(f, "format_", "args_", ret)
+    blocks = set(f.reachable_blocks())
+    outside = blocks - set(body)
+    try:
+        pre = ss.paths(f.entry, outside, {head})
+        body_entry = [to for to, lab in f.succs(head) if lab == "true"][0]
+        after_entry = [to for to, lab in f.succs(head) if lab == "false"][0]
+        its = ss.paths(body_entry, set(body) - {head}, {head})
+        posts = ss.paths(after_entry, outside - {head}, {f.exit})
+    except (strsym.Unknown, IndexError) as ex:
+        ctx.broken("R08.4", f, "loop-regions", "cannot cut formatter::str into before/iteration/after: %s" % ex, f)
+        return
+    ctx.need("R08.4", "paths before the loop", len(pre), 1)
+    ctx.need("R08.4", "non-raising iteration paths", len(its), 1)
+    ctx.need("R08.4", "non-raising paths after the loop", len(posts), 1)
+    # locals written inside the loop
+    carried = set()
+    for b in body:
+        for e in f.elems(b):
+            if e.get("expr") is None:
+                continue
+            for eff, lv, n in tree_effects(e["expr"], into_sc=True):
+                if eff in ("write", "maybe_write") and lv is not None:
+                    kind, key, _ = lvalue_root(lv)
+                    if kind == "local":
+                        carried.add(key)
+    for pth in pre:
+        env0, out0 = ss.run_path(pth + [head], {})
+        if out0:
+            ctx.broken("R08.4", f, "starts-empty", "text is appended before the argument loop (%s): shape not modelled" % [show(o) for o in out0], f)
+            return
+        cursors = [k for k, v in env0.items() if v and v[0] == "pos" and k in carried]
+        mits = [k for k, v in env0.items() if v and v[0] == "mit" and k in carried]
+        aits = [k for k, v in env0.items() if v and v[0] == "ait" and k in carried]
+        if len(cursors) != 1 or len(mits) != 1 or len(aits) != 1:
+            ctx.broken("R08.4", f, "loop-variables", "expected one format cursor, one match iterator and one argument iterator carried by the loop, found %s / %s / %s"
+                       % (cursors, mits, aits), f)
+            return
+        cur, mit, ait = cursors[0], mits[0], aits[0]
+        ctx.check(env0[cur] == ("pos", {}), "R08.4", f, "cursor-starts-at-format-begin", "the copy cursor `%s` starts at %s instead of format_.begin()" % (cur, show(env0[cur])), f, why_ok=cur)
+        ctx.check(env0[mit] == ("mit", 0, "fresh"), "R08.4", f, "matches-start-at-first-placeholder", "the match iterator `%s` starts at %s instead of the first match in [format_.begin(), format_.end())" % (mit, show(env0[mit])), f, why_ok=mit)
+        ctx.check(env0[ait] == ("ait", 0, "fresh"), "R08.4", f, "arguments-start-at-first", "the argument iterator `%s` starts at %s instead of args_.begin()" % (ait, show(env0[ait])), f, why_ok=ait)
+        gen = dict(env0)
+        gen[cur] = ("pos", {"I": 1})
+        gen[mit] = ("mit", 0)
+        gen[ait] = ("ait", 0)
+        for k in carried - {cur, mit, ait}:
+            if k != ret:
+                gen[k] = None
+        want = [("slice", {"I": 1}, {"P0": 1}), ("text", 0)]
+        for pth in its:
+            env1, out1 = ss.run_path(pth, gen)
+            sig = "B" + "-".join(map(str, pth))
+            unk = [o for o in out1 if o[0] == "unknown"]
+            if unk:
+                ctx.broken("R08.4", f, "iteration:" + sig, "the iteration appends %s: outside the modelled operations" % [u[1] for u in unk], f)
+                continue
+            ctx.check(out1[:1] == want[:1] and len(out1) >= 1, "R08.4", f, "appends-format-up-to-match",
+                      "an iteration first appends %s (expected subject[I, P0): the format text between the previous placeholder and this one)" % [show(o) for o in out1[:1]], f)
+            ctx.check(out1[1:] == want[1:], "R08.4", f, "appends-argument-text-verbatim",
+                      "after the format slice an iteration appends %s (expected exactly the current argument's text)" % [show(o) for o in out1[1:]], f)
+            ctx.check(env1.get(cur) == ("pos", {"P0": 1, "L0": 1}), "R08.4", f, "resumes-after-the-placeholder",
+                      "the copy cursor is %s at the end of an iteration instead of match position + match length" % show(env1.get(cur)), f)
+            ctx.check(env1.get(mit) is not None and env1[mit][:2] == ("mit", 1) and env1.get(ait) is not None and env1[ait][:2] == ("ait", 1), "R08.4", f, "advances-argument-and-placeholder",
+                      "after one iteration the match iterator is %s and the argument iterator %s (each must advance exactly once)" % (show(env1.get(mit)), show(env1.get(ait))), f)
+        for pth in posts:
+            env2, out2 = ss.run_path(pth, gen)
+            unk = [o for o in out2 if o[0] == "unknown"]
+            if unk:
+                ctx.broken("R08.4", f, "tail", "after the loop %s is appended: outside the modelled operations" % [u[1] for u in unk], f)
+                continue
+            ctx.check(out2 == [("slice", {"I": 1}, {"END": 1})], "R08.4", f, "appends-format-tail",
+                      "after the loop the result receives %s (expected subject[I, END): the rest of the format)" % [show(o) for o in out2], f)
